@@ -231,3 +231,32 @@ _GHOSTS: dict = {}
 def ghost(name):
     """A per-run ghost list (specification-only state shared by contract functions)."""
     return _GHOSTS.setdefault(name, [])
+
+
+def sym_idset(name, probes=()):
+    """A collection of device ids (a list).  Replay: the members among the probe ids; random
+    mode: a random subset of the probes plus some unrelated ids."""
+    def g(r):
+        pool = [p for p in probes if isinstance(p, str)]
+        out = [p for p in pool if r.random() < 0.4]
+        out += [f"{r.randint(0, 63):02d}:{r.randint(0, 262143):06d}" for _ in range(r.randint(0, 2))]
+        return out
+    return list(_get(name, g))
+
+
+_SET_GLOBALS: list = []
+
+
+def set_global(module, name, value):
+    """Give a module-level variable a value for this run (restored afterwards)."""
+    _SET_GLOBALS.append((module, name, getattr(module, name)))
+    setattr(module, name, value)
+
+
+def get_global(module, name):
+    return getattr(module, name)
+
+
+def id_mapping(ids):
+    """A device list (id -> traits) with exactly these ids (the abstract set itself when symbolic)."""
+    return {k: {} for k in ids}
